@@ -160,6 +160,7 @@ pub fn base_case(r: &mut Rng) -> VmCase {
         memory: vec![],
         parent_memory: None,
         repeat: vec![],
+        pc: 0,
         solutions,
         index,
         pre,
@@ -1116,6 +1117,14 @@ pub fn random_case(r: &mut Rng, focus: Focus) -> VmCase {
     }
     let ops = std::mem::take(&mut g.ops);
     case.set_ops(&ops);
+    if r.chance(0.06) {
+        // a machine entered somewhere else: mid-program (whatever is on the stack there), at the end, past the end
+        case.pc = match r.below(4) {
+            0 => ops.len(),
+            1 => ops.len() + 1 + r.below(3),
+            _ => r.below(ops.len().max(1)),
+        };
+    }
     case
 }
 
